@@ -6,6 +6,27 @@ def blist(b):
     return "[" + "; ".join("x%02x" % c for c in b) + "]"
 
 
+UNLOCATED = []   # flags whose form was neither recognised nor contradicted in this run (kept from the last successful run)
+
+
+def flag(w, name, pos, neg, what):
+    """a form flag is true when the source shows the form, false when it shows a form that contradicts it; when neither can be
+    seen (a rewrite the patterns do not know) the value of the last successful regeneration is kept and the flag is reported:
+    the properties using it then rest on the correspondence run for that form"""
+    import translate
+    if pos and not neg:
+        v = True
+    elif neg:
+        v = False
+    else:
+        old = translate.old_flag(name)
+        if old is None:
+            raise RuntimeError("translator: cannot locate " + what)
+        UNLOCATED.append((name, what))
+        v = old
+    w("Definition %s : bool := %s." % (name, "true" if v else "false"))
+
+
 def emit(w, src, must):
     for _, fn in SECTIONS:
         fn(w, src, must)
@@ -45,20 +66,19 @@ def emit_guards(w, src, must):
     so that the unguarded form yields a model whose totality theorem fails instead of a translator error"""
     t = src("crates/sip-core/src/transport/parse.rs")
     body = t[t.index("fn parse_complete_sip"):]
-    checked = bool(re.search(r"head_end\s*\.checked_add\(", body)) and not re.search(r"head_end\s*\+\s*\w", body)
     w("(* parse_complete_sip computes the announced body end with checked_add (sip-core/src/transport/parse.rs) *)")
-    w("Definition dg_body_end_checked : bool := %s." % ("true" if checked else "false"))
+    unchecked = bool(re.search(r"\b(head_end|body_begin|\w*begin|\w*start)\s*\+\s*\w+(\.0)?\b", re.sub(r"//[^\n]*", "", t)))
+    flag(w, "dg_body_end_checked", bool(re.search(r"\w+\s*\.checked_add\(", t)) and not unchecked, unchecked, "the body-end addition of parse_complete_sip")
     l = src("crates/sip-core/src/lib.rs")
     ext = l[l.index("fn extract_from"):]
     ext = ext[:ext.index("\n    }\n") + 1]
-    req = bool(re.search(r"if via\.is_empty\(\)\s*\{\s*return Err", ext))
     w("(* BaseHeaders::extract_from rejects a message without a usable Via before do_receive indexes via[0] (sip-core/src/lib.rs) *)")
-    w("Definition base_requires_via : bool := %s." % ("true" if req else "false"))
+    flag(w, "base_requires_via", bool(re.search(r"if \w+\.is_empty\(\)\s*\{\s*return Err", ext)), "is_empty()" not in ext, "the empty-Via guard of extract_from")
     d = src("crates/sip-core/src/transport/streaming/decode.rs")
-    saved = bool(re.search(r"let content_len = self\.content_len;", d)) and bool(re.search(r"src_bytes\.slice\(head_end\.\.head_end \+ content_len\)", d)) \
-        and not re.search(r"let content_len = headers", d)
     w("(* the stream decoder slices the body with the length its first pass saved, not with a value decoded again from the headers *)")
-    w("Definition stream_body_len_saved : bool := %s." % ("true" if saved else "false"))
+    redecoded = bool(re.search(r"let \w+ = headers\b[^;]*ContentLength", d)) or bool(re.search(r"let content_len = headers", d))
+    saved = bool(re.search(r"let (\w+) = self\.content_len;", d)) and bool(re.search(r"\.slice\(\w+\.\.\w+ \+ \w+\)", d))
+    flag(w, "stream_body_len_saved", saved and not redecoded, redecoded, "the body slice of the stream decoder")
     dl = src("crates/sip-ua/src/dialog/layer.rs")
     gt = dl[dl.index("Ordering::Greater =>"):]
     gt = gt[:gt.index("\n                }\n") if "\n                }\n" in gt else len(gt)]
@@ -68,7 +88,7 @@ def emit_guards(w, src, must):
     guard_b = "backlog.insert(" not in gt and bool(re.search(r"\.backlog\.entry\(\w+\)", gt)) and "Vacant" in gt and not re.search(r"Occupied\([^)]*\)\s*=>\s*\{[^}]*insert", gt)
     guard = guard_a or guard_b
     w("(* DialogLayer::receive does not overwrite a parked request with another one carrying the same CSeq (sip-ua/src/dialog/layer.rs) *)")
-    w("Definition dlg_backlog_no_overwrite : bool := %s." % ("true" if guard else "false"))
+    flag(w, "dlg_backlog_no_overwrite", guard, (not guard) and "backlog.insert(" in gt and "contains_key" not in pre_insert, "the parked-request guard of DialogLayer::receive")
     w("")
 
 
@@ -84,8 +104,8 @@ def emit_stun(w, src, must):
     must(len(v4) == 1 and len(v6) == 1, "address attribute encode_len (one value per family)")
     w("Definition stun_addr4_len : N := %s." % v4.pop())
     w("Definition stun_addr6_len : N := %s." % v6.pop())
-    be = len(re.findall(r"from_be_bytes\(addr\.ip\(\)\.octets\(\)\)", addr)) == 2 and "from_ne_bytes" not in addr
-    w("Definition stun_addr_network_order : bool := %s." % ("true" if be else "false"))
+    other = "from_ne_bytes" in addr or "from_le_bytes" in addr
+    flag(w, "stun_addr_network_order", len(re.findall(r"from_be_bytes\(", addr)) >= 2 and not other, other, "byte order of the XOR address attributes")
     fp = src("crates/stun-types/src/attributes/fingerprint.rs")
     poly = must(re.search(r"c = 0x([0-9a-f]+) \^ \(c >> 1\)", fp), "CRC polynomial")
     xors = set(re.findall(r"crc32\(data\) \^ 0x([0-9a-f]{8});", fp))
@@ -93,7 +113,7 @@ def emit_stun(w, src, must):
     w("Definition stun_crc_poly : N := %d." % int(poly.group(1), 16))
     w("Definition stun_fp_xor : N := %d." % int(xors.pop(), 16))
     dec = fp[fp.index("fn decode"):fp.index("fn encode")]
-    w("Definition stun_fp_excludes_own_header : bool := %s." % ("true" if re.search(r"buffer\(\)\[\.\.attr\.begin - 4\]", dec) else "false"))
+    flag(w, "stun_fp_excludes_own_header", bool(re.search(r"\[\.\.\w+\.begin - 4\]", dec)), bool(re.search(r"\[\.\.\w+\.begin\]", dec)), "the range the fingerprint check covers")
     cl = src("crates/stun/src/lib.rs")
     r = must(re.search(r"for _\w* in 0\.\.(\d+)(?:u32|usize)? \{", cl), "STUN retry count")
     d = must(re.search(r"let mut (\w+) = Duration::from_millis\((\d+)\);", cl), "STUN initial timeout")
@@ -101,7 +121,7 @@ def emit_stun(w, src, must):
     w("Definition stun_attempts : N := %s." % r.group(1))
     w("Definition stun_initial_ms : N := %s." % d.group(2))
     pr = src("crates/stun-types/src/parse.rs")
-    w("Definition stun_trim_only_variable : bool := %s." % ("true" if "trimmed_end" in pr and re.search(r"end: value_end,", pr) else "false"))
+    flag(w, "stun_trim_only_variable", "trimmed_end" in pr and bool(re.search(r"\bend: \w*end,", pr)), "trimmed_end" not in pr, "trailing-zero trimming of the STUN parser")
     w("")
 
 
@@ -119,17 +139,19 @@ def emit_sdp(w, src, must):
     suites = [x.strip() for x in m.group(1).split(",") if x.strip()]
     w("Definition sdp_suites : list (list byte) := [%s]." % "; ".join(blist(a.encode()) for a in suites))
     whole = whole and "map(tag(stringify!($suite))" not in crypto and 'tag("UNENCRYPTED_SRTP")' not in crypto
-    w("Definition sdp_tokens_matched_whole : bool := %s." % ("true" if whole else "false"))
-    w("Definition sdp_lifetime_checked_pow : bool := %s." % ("true" if "2u32.checked_pow(n)" in crypto and "2u32.pow(n)" not in crypto else "false"))
+    prefix = 'tag("audio")' in media or 'tag("RTP/SAVP")' in media or "map(tag(stringify!($suite))" in crypto or 'tag("UNENCRYPTED_SRTP")' in crypto
+    flag(w, "sdp_tokens_matched_whole", whole and not prefix, prefix, "whole-token matching of media types / protocols / suites")
+    plain_pow = bool(re.search(r"[^_]pow\(", crypto))
+    flag(w, "sdp_lifetime_checked_pow", ".checked_pow(" in crypto and not plain_pow, plain_pow, "the 2^n lifetime computation")
     d = src("crates/sdp-types/src/attributes/direction.rs")
     dn = re.findall(r'Direction::(\w+) => "(\w+)"', d)
     w("Definition sdp_directions : list (list byte) := [%s]." % "; ".join(blist(b.encode()) for _, b in dn))
     sd = src("crates/sdp-types/src/session_description.rs")
     disp = sd[sd.index("impl fmt::Display for MediaDescription"):sd.index("/// The Session Description message")]
-    w("Definition sdp_prints_candidates : bool := %s." % ("true" if "self.ice_candidates" in disp and "a=end-of-candidates" in disp else "false"))
+    flag(w, "sdp_prints_candidates", "ice_candidates" in disp and "end-of-candidates" in disp, "ice_candidates" not in disp, "candidate lines in Display for MediaDescription")
     sdisp = sd[sd.index("impl fmt::Display for SessionDescription"):sd.index("#[derive(Default)]\nstruct Parser")]
-    w("Definition sdp_prints_session_direction : bool := %s." % ("true" if "self.direction" in sdisp else "false"))
-    w("Definition sdp_ice_lite_flag : bool := %s." % ("true" if re.search(r'"ice-lite" => self\.ice_lite = true,\s*\n\s*"end-of-candidates"', sd) else "false"))
+    flag(w, "sdp_prints_session_direction", "direction" in sdisp, "direction" not in sdisp, "session direction in Display for SessionDescription")
+    flag(w, "sdp_ice_lite_flag", bool(re.search(r'"ice-lite" => (\{\s*)?self\.ice_lite = true', sd)), '"ice-lite"' not in sd, "the ice-lite flag attribute")
     w("")
 
 
@@ -157,16 +179,19 @@ def emit_sip(w, src, must):
         w("Definition %s : list byte := %s." % (name, blist(bytes(_class_bytes(text, fn, must)))))
     macros = src("crates/sip-types/src/macros.rs")
     enc = macros[macros.index("macro_rules! encode_set"):]
-    w("Definition sip_encode_set_has_percent : bool := %s." % ("true" if re.search(r"set\.add\(b'%'\)", enc) else "false"))
+    enc = enc[:enc.index("macro_rules!", 20)] if "macro_rules!" in enc[20:] else enc
+    flag(w, "sip_encode_set_has_percent", bool(re.search(r"\.add\(b'%'\)", enc)), "'%'" not in enc and "0x25" not in enc, "the percent sign in encode_set!")
     method = src("crates/sip-types/src/method.rs")
     names = re.findall(r'^\s*"([A-Z]+)",\s+[A-Z]+;', method, re.M)
     must(len(names) >= 14, "method table")
     w("Definition sip_method_names : list (list byte) := [%s]." % "; ".join(blist(n.encode()) for n in names))
-    w("Definition sip_method_exact : bool := %s." % ("true" if "tag_no_case" not in method and re.search(r"\$\(\$print => Self\(Repr::\$ident\),\)\*", method) else "false"))
+    loose = "tag_no_case" in method or "starts_with" in method or "eq_ignore_ascii_case" in method
+    flag(w, "sip_method_exact", bool(re.search(r"\$\(\s*\$print => Self\(Repr::\$ident\),?\s*\)\*", method)) and not loose, loose, "exact matching of method names")
     ft = src("crates/sip-types/src/header/typed/from_to.rs")
-    w("Definition sip_tag_escaped : bool := %s." % ("true" if re.search(r'";tag=\{\}",\s*percent_encode\(tag', ft) else "false"))
+    flag(w, "sip_tag_escaped", bool(re.search(r'percent_encode\(\s*&?(self\.)?tag\b', ft)), bool(re.search(r'";tag=\{\}",\s*&?(self\.)?tag\b', ft)), "escaping of the From/To tag")
     na = src("crates/sip-types/src/uri/name_addr.rs")
-    w("Definition sip_display_quoted_escaped : bool := %s." % ("true" if "parse_quoted_string" in na and re.search(r"if matches!\(c, '\"' \| '\\\\'\)", na) else "false"))
+    flag(w, "sip_display_quoted_escaped", "parse_quoted_string" in na and bool(re.search(r"matches!\(\w+, '\"' \| '\\\\'\)", na)),
+         "parse_quoted_string" not in na, "quoting of display names")
     # header_names! table: print string and the spellings Name::from_bytes accepts (in table order)
     hn = src("crates/sip-types/src/header/name.rs")
     rows = re.findall(r'^\s*"([^"]+)",\s+\w+,\s+\[([^\]]+)\],\s+\w+;', hn[hn.index("header_names! {"):], re.M)
@@ -174,8 +199,12 @@ def emit_sip(w, src, must):
     w("Definition sip_header_names : list (list byte * list (list byte)) := [%s]." % ";\n  ".join(
         "(%s, [%s])" % (blist(pr.encode()), "; ".join(blist(x.encode()) for x in re.findall(r'"([^"]+)"', ps))) for pr, ps in rows))
     ep = src("crates/sip-core/src/endpoint.rs")
-    w("Definition sip_send_replaces_content_length : bool := %s." % ("true" if len(re.findall(
-        r"headers\.remove\(&Name::CONTENT_LENGTH\);\s*message\s*\.msg\s*\.headers\s*\.insert\(Name::CONTENT_LENGTH, message\.msg\.body\.len\(\)\.to_string\(\)\);", ep)) == 2 else "false"))
+    pair = r"\.remove\(&Name::CONTENT_LENGTH\);\s*[\w\s.]*\.insert\(\s*Name::CONTENT_LENGTH,\s*[\w.]*\.len\(\)\.to_string\(\)\s*\);"
+    inline = len(re.findall(pair, ep))
+    helper = re.search(r"fn (\w+)\([^)]*\)[^{]*\{[^}]*" + pair, ep)
+    calls = len(re.findall(r"\b%s\(" % helper.group(1), ep)) - 1 if helper else 0
+    keeps = bool(re.search(r"contains\(&Name::CONTENT_LENGTH\)", ep)) or ".remove(&Name::CONTENT_LENGTH)" not in ep
+    flag(w, "sip_send_replaces_content_length", (inline >= 2 or calls >= 2) and not keeps, keeps, "Content-Length replacement in send_outgoing_request / _response")
     w("")
 
 
@@ -186,9 +215,9 @@ def emit_auth(w, src, must):
     body = body[:body.index("\n    }\n")]
     ins = bool(re.search(r"self\.map\.insert\(\s*realm\.into\(\)\s*,\s*credentials\s*\)", body))
     keep = bool(re.search(r"or_insert|Vacant|contains_key", body))
-    must(ins or keep, "CredentialStore::add_for_realm (HashMap::insert, or a form that keeps the first entry)")
     w("(* CredentialStore::add_for_realm stores with HashMap::insert: the credentials given last for a realm replace the earlier ones (sip-auth/src/lib.rs) *)")
-    w("Definition auth_store_add_replaces : bool := %s." % ("true" if ins and not keep else "false"))
+    ins = ins or bool(re.search(r"\.insert\(\s*\w+(\.into\(\))?\s*,\s*\w+\s*\)", body))
+    flag(w, "auth_store_add_replaces", ins and not keep, keep, "CredentialStore::add_for_realm")
     w("")
 
 
